@@ -18,6 +18,7 @@ import (
 	"fmt"
 	"math/big"
 	"os"
+	"os/exec"
 	"path/filepath"
 	"sort"
 	"strings"
@@ -917,6 +918,119 @@ func wuffsFormatter(r *ev.Run) (evals, accepted, nontrivial int64) {
 	return nEval.Load(), nAcc.Load(), nNon.Load()
 }
 
+// formatterCommand exercises the formatter as users run it: the wuffsfmt binary built from the
+// working tree (stdin -> stdout mode and -w mode), on every .wuffs file and on every source of up
+// to 3 lines over a small alphabet of line kinds (so comment-only, blank-only and token-free
+// sources are all there). Same oracle as the in-process pass, applied to the command's output.
+func formatterCommand(r *ev.Run) (evals, nontrivial int64) {
+	scratch := os.Getenv("VERIF_SCRATCH")
+	if scratch == "" {
+		d, _ := os.MkdirTemp("/dev/shm", "verif-c12-")
+		defer os.RemoveAll(d)
+		scratch = d
+	}
+	bin := filepath.Join(scratch, "wuffsfmt")
+	cmd := exec.Command("go", "build", "-o", bin, "github.com/google/wuffs/cmd/wuffsfmt")
+	cmd.Dir = ev.Root
+	if o, err := cmd.CombinedOutput(); err != nil {
+		ev.Fatal("building cmd/wuffsfmt failed: %v\n%s", err, o)
+	}
+	type job struct {
+		name string
+		src  []byte
+	}
+	var jobs []job
+	for _, f := range listFiles(ev.Repo(), ".wuffs") {
+		b, err := os.ReadFile(f)
+		if err == nil {
+			jobs = append(jobs, job{strings.TrimPrefix(f, ev.Repo()+"/"), b})
+		}
+	}
+	lines := []string{"// c\n", "\n", "pri const X : base.u8 = 0x1f\n", "pub status \"#bad\"  // why\n", "   // indented comment\n", "pri func foo.bar() {\n}\n"}
+	var rec func(prefix string, depth int)
+	rec = func(prefix string, depth int) {
+		jobs = append(jobs, job{fmt.Sprintf("tiny%q", prefix), []byte(prefix)})
+		if depth == 3 {
+			return
+		}
+		for _, l := range lines {
+			rec(prefix+l, depth+1)
+		}
+	}
+	rec("", 0)
+	jobs = append(jobs, job{"tiny-no-final-newline", []byte("// only a comment")}, job{"tiny-spaces", []byte("   \n\t\n")})
+	run := func(args []string, stdin []byte) (out []byte, code int) {
+		c := exec.Command(bin, args...)
+		if stdin != nil {
+			c.Stdin = bytes.NewReader(stdin)
+		}
+		var so bytes.Buffer
+		c.Stdout = &so
+		err := c.Run()
+		if err != nil {
+			if ee, ok := err.(*exec.ExitError); ok {
+				return so.Bytes(), ee.ExitCode()
+			}
+			ev.Fatal("running wuffsfmt: %v", err)
+		}
+		return so.Bytes(), 0
+	}
+	var nEval, nNon atomic.Int64
+	ev.ParFor(len(jobs), func(w, i int) {
+		j := jobs[i]
+		ref, _, refErr := runFmtSafe(j.src) // in-process Tokenize+Parse+Render: decides "accepted", supplies the input's stream
+		out, code := run(nil, j.src)
+		nEval.Add(1)
+		fail := func(clause, detail string) {
+			s := string(j.src)
+			if len(s) > 6000 {
+				s = s[:6000]
+			}
+			r.Violation("fmt:command:"+clause, fmt.Sprintf("cmd/wuffsfmt on %s: %s: %s", j.name, clause, detail), fmtWitness{j.name, "command", clause, detail, s})
+		}
+		if refErr != nil {
+			return // not a source the formatter accepts (the command's exit status is its own business)
+		}
+		if code != 0 {
+			return // the command may refuse what the library accepts; the property is about accepted sources
+		}
+		o2, stage, err := runFmtSafe(out)
+		if err != nil {
+			fail("output-rejected", stage+": "+err.Error())
+			return
+		}
+		if len(ref.stream) != len(o2.stream) {
+			fail("tokens-changed", fmt.Sprintf("stream length %d -> %d; %s", len(ref.stream), len(o2.stream), firstDiff(ref.stream, o2.stream)))
+			return
+		}
+		for k := range ref.stream {
+			if ref.stream[k] != o2.stream[k] {
+				fail("tokens-changed", firstDiff(ref.stream, o2.stream))
+				return
+			}
+		}
+		again, code2 := run(nil, out)
+		if code2 != 0 || !bytes.Equal(again, out) {
+			fail("not-idempotent", fmt.Sprintf("second run exit %d; %s", code2, firstLineDiff(out, again)))
+			return
+		}
+		// -w mode on a copy of the file must leave exactly the same bytes behind
+		tmp := filepath.Join(scratch, fmt.Sprintf("w%d.wuffs", i))
+		os.WriteFile(tmp, j.src, 0o644)
+		_, codeW := run([]string{"-w", tmp}, nil)
+		got, _ := os.ReadFile(tmp)
+		os.Remove(tmp)
+		if codeW != 0 || !bytes.Equal(got, out) {
+			fail("w-mode-differs", fmt.Sprintf("exit %d; %s", codeW, firstLineDiff(out, got)))
+			return
+		}
+		if !bytes.Equal(out, j.src) {
+			nNon.Add(1)
+		}
+	})
+	return nEval.Load(), nNon.Load()
+}
+
 func isWordByte(b byte) bool {
 	return b == '_' || (b >= '0' && b <= '9') || (b >= 'a' && b <= 'z') || (b >= 'A' && b <= 'Z')
 }
@@ -994,12 +1108,15 @@ func main() {
 	r.Add("formatter_sources_tried", e3)
 	phase("formatter")
 	r.Add("formatter_sources_accepted", a3)
+	e4, n4 := formatterCommand(r)
+	r.Add("formatter_command_sources", e4)
+	phase("formatter_command")
 	r.Sample(map[string]any{"formatter_mutation": "std/gif/decode_gif.wuffs with a newline inserted at a token gap of line 77"})
 	r.Finish(ev.Coverage{
-		Evaluations:        c1*3 + e2*3 + a3,
-		DistinctNontrivial: n1 + n2 + n3,
+		Evaluations:        c1*3 + e2*3 + a3 + e4,
+		DistinctNontrivial: n1 + n2 + n3 + n4,
 		Rule: fmt.Sprintf("indenter: every text of length <= %d over %q that an independent lexer deems lexically closed x 3 option sets, plus every .c/.h file in /repo under whole-file and (<=600 lines) per-line indentation perturbations and 2-line joins; "+
-			"formatter: every .wuffs file in /repo under per-line layout mutations (blank runs, comments, explicit ';', line joins, newline or spaces at every token gap, numeric respellings), only those Tokenize+Parse+Render accept; "+
+			"formatter: every .wuffs file in /repo under per-line layout mutations (blank runs, comments, explicit ';', line joins, newline or spaces at every token gap, numeric respellings), only those Tokenize+Parse+Render accept; the cmd/wuffsfmt binary (stdin and -w modes) on every .wuffs file and every source of <= 3 lines over 6 line kinds; "+
 			"non-trivial = formatter output differs from its input", maxLen, string(alphabet)),
 		Exhaustive: true,
 	}, []string{"the lexical-closure definition is the conservative one stated in the source (strings and chars close on their own line)",
